@@ -141,7 +141,9 @@ class Scheduler:
             return  # caller thread, or a foreign thread: not schedulable here
         c = self.c
         self.steps += 1
-        c.step()
+        c.steps += 1
+        if self.steps > c.step_cap:  # bounded per SimParallel call
+            raise _ctx.StepCapExceeded("step cap %d exceeded in one Parallel call" % c.step_cap)
         mode = self.cfg.mode
         if mode == "rtc":
             return
